@@ -3,6 +3,7 @@ package sim
 import (
 	"fmt"
 	"hash/fnv"
+	"regexp"
 	"sort"
 	"strings"
 )
@@ -73,12 +74,18 @@ func newT(c *Stream, prop, tier string, keep bool, active []*KnownFinding) *T {
 }
 
 // Logf appends one line to the event log. It never draws and never reads a clock.
+var scratchNameRE = regexp.MustCompile(`verif-[0-9]+-[0-9]+`)
+
 func (t *T) Logf(format string, a ...interface{}) {
 	var s string
 	if len(a) == 0 {
 		s = format
 	} else {
 		s = fmt.Sprintf(format, a...)
+	}
+	if strings.Contains(s, "verif-") {
+		// scratch directory names carry the worker's process id: not part of the event
+		s = scratchNameRE.ReplaceAllString(s, "verif-SCRATCH")
 	}
 	for i := 0; i < len(s); i++ {
 		t.evh = (t.evh ^ uint64(s[i])) * 1099511628211
